@@ -50,6 +50,8 @@ func classes() []cfgClass {
 		{name: "different-secret", a: r("test", "s3cret"), b: r("test", "wrong"), aMustFail: true, bMustFail: true},
 		{name: "secret-on-A-only", a: r("test", "s3cret"), b: r("test", ""), aMustFail: true},
 		{name: "secret-on-B-only", a: r("test", ""), b: r("test", "s3cret"), bMustFail: true},
+		{name: "secret-without-universe-name-on-A-only", a: r("", "s3cret"), b: r("", ""), aMustFail: true},
+		{name: "secret-without-universe-name-on-B-only", a: r("", ""), b: r("", "s3cret"), bMustFail: true},
 		{name: "lite-and-stub", a: config.Router{Universe: "test", Lite: true}, b: config.Router{Universe: "test", Stub: true}, expect: true},
 	}
 }
